@@ -15,7 +15,7 @@ from . import rx
 from . import strlemmas
 
 BUILTINS = {
-    "ascii_digits", "fs_content", "len", "str", "int", "list", "tuple", "dict", "all", "any", "type", "range", "enumerate", "iter", "next",
+    "ascii_digits", "fs_content", "markup_safe", "len", "str", "int", "list", "tuple", "dict", "all", "any", "type", "range", "enumerate", "iter", "next",
     "open", "bool", "max", "min", "sorted", "repr", "abs", "print", "set", "bytes", "ord", "chr", "sum", "zip",
     "isinstance", "hasattr", "getattr", "setattr", "object", "float",
 }
@@ -50,7 +50,7 @@ CONSTS = {
     "socket.MSG_PEEK": 2,
 }
 OBJ_METHODS = {
-    "WFile": {"write", "flush"},
+    "WFile": {"write", "flush", "seek", "readline", "getvalue"},
     "RFile": {"read", "readline", "readlines", "close"},
     "TFile": {"read", "readline", "readlines", "close"},
     "Config": {"get", "getboolean", "getint", "has_option", "set"},
@@ -224,6 +224,8 @@ def construct_external(eng, world, clsname, args, kwargs, node, fr):
     if clsname in ("io.BytesIO",):
         o = VObj("WFile", name=eng.fresh_name("bytesio"))
         o.fields["written"] = VStr("", True)
+        o.fields["pos"] = VInt(0)
+        o.fields["nofault"] = VBool(True)
         o.fresh_alloc = True
         return o
     raise OutOfSubset("construction of external class %s" % clsname)
@@ -282,6 +284,8 @@ def call_builtin(eng, world, n, args, kwargs, node, fr):
         if a0 is NONE:
             eng.raise_("TypeError", site=node.lineno)
         raise OutOfSubset("len of %r" % (a0,))
+    if n == "markup_safe":
+        return VBool(markup_safe(eng, a0))
     if n == "fs_content":
         # ghost: the bytes of the file at an OS path (a function of the path: files do not change during a request)
         eng.assumptions_used.add("file contents are a function of the path for the duration of a request (no concurrent modification)")
@@ -402,6 +406,74 @@ def call_builtin(eng, world, n, args, kwargs, node, fr):
     if n == "ord" and isinstance(a0, VStr):
         return VInt(ord(a0.z)) if is_conc(a0.z) else VInt(z3.StrToCode(a0.z))
     raise OutOfSubset("builtin %s" % n)
+
+
+SAFE_FUNS = {"html_escape_q", "pct_enc", "int.to.str", "str.from_int"}
+
+
+def markup_safe(eng, v, quote_needed=True):
+    """Structural (taint-style) obligation on a generated HTML/WML string: every piece that is not a string
+    literal is html.escape(..) (quote=True), a percent-encoded URL, a number, a configuration value or a string
+    declared safe by the function's precondition.  Decided on the symbolic term, not by the solver."""
+    if v is NONE:
+        return True
+    if not isinstance(v, VStr):
+        return False
+    if is_conc(v.z):
+        return True
+    eng.assumptions_used.add("markup discipline: html.escape(x) (quote=True) output contains none of < > \" ' and '&' only as entity start; urllib.parse.quote output is over [A-Za-z0-9_.~/%-]; configuration strings (pagetopper, footer, icon names, admin) are trusted markup")
+    bad = []
+    if getattr(eng, "assume_clauses", 0):
+        # the clause is being ASSUMED (postcondition of a callee, precondition of the target): record the
+        # string's unknown pieces as safe markup
+        def mark(t):
+            if z3.is_string_value(t):
+                return
+            if z3.is_app(t) and t.decl().kind() in (z3.Z3_OP_SEQ_CONCAT, z3.Z3_OP_ITE):
+                for c in (t.children() if t.decl().kind() == z3.Z3_OP_SEQ_CONCAT else [t.arg(1), t.arg(2)]):
+                    mark(c)
+                return
+            eng.safe_terms.add(t.get_id())
+            eng.keepalive.append(t)
+        mark(S(v.z))
+        return True
+
+    def walk(t):
+        if z3.is_string_value(t):
+            return
+        if t.get_id() in eng.safe_terms:
+            return
+        if z3.is_app(t):
+            k = t.decl().kind()
+            name = t.decl().name()
+            if k == z3.Z3_OP_SEQ_CONCAT:
+                for c in t.children():
+                    walk(c)
+                return
+            if k == z3.Z3_OP_ITE:
+                walk(t.arg(1))
+                walk(t.arg(2))
+                return
+            if name in SAFE_FUNS or name.startswith("fmt_") or name.startswith("re_sub_5c732b"):
+                return
+            if name in ("se_encode", "bsr_encode", "utf8_encode", "re_sub_lit"):
+                for c in t.children():
+                    walk(c)
+                return
+            if k in (z3.Z3_OP_SEQ_EXTRACT, z3.Z3_OP_SEQ_AT) and z3.is_string_value(t.arg(0)):
+                return  # a piece of a program literal
+            if name.startswith("dict_val_") and "iconmapping" in name:
+                return  # values of the configured icon map
+            if z3.is_const(t) and (name.startswith("cfg[") or name.startswith("time_") or name.startswith("dict_val_cfg_")):
+                return
+            if name.startswith("dict_val_cfg_"):
+                return
+        bad.append(t)
+
+    walk(S(v.z))
+    if bad:
+        eng.last_unsafe = [b.sexpr()[:120] for b in bad[:4]]
+    return not bad
 
 
 def py_int(eng, s, node):
@@ -974,10 +1046,31 @@ def wfile_write(eng, world, w, args, kwargs, node):
     _wfile_fault(eng, w, node)
     cur = eng.getattr(w, "written")
     w.fields["written"] = eng.concat_strs([cur, data], True)
+    if "delta" in w.fields:
+        w.fields["delta"] = eng.concat_strs([w.fields["delta"], data], True)
     nw = w.fields.get("nwrites")
     if nw is not None:
         w.fields["nwrites"] = VInt(z3.simplify(zint(nw.z) + 1))
     return VInt(z3.Length(S(data.z)) if not is_conc(data.z) else len(data.z))
+
+
+@objimpl("WFile", "seek")
+def wfile_seek(eng, world, w, args, kwargs, node):
+    p = eng.force(args[0])
+    w.fields["pos"] = p
+    return p
+
+
+@objimpl("WFile", "readline")
+def wfile_readline(eng, world, w, args, kwargs, node):
+    # an in-memory file (io.BytesIO): reading returns what was written
+    w.fields["content"] = eng.getattr(w, "written")
+    return rfile_readline(eng, world, w, args, kwargs, node)
+
+
+@objimpl("WFile", "getvalue")
+def wfile_getvalue(eng, world, w, args, kwargs, node):
+    return eng.getattr(w, "written")
 
 
 @objimpl("WFile", "flush")
@@ -1260,18 +1353,26 @@ def match_group(eng, pat, subj, kind, i):
         rest = z3.SubString(z, pre, L - pre)
         g = z3.If(z3.SuffixOf(z3.StringVal("\n"), rest), z3.SubString(rest, 0, z3.Length(rest) - 1), rest)
         return VStr(g)
-    if i == 0 and kind == "search" and pat == "/.+$":
-        # last-resort: leftmost match of "/.+$" : from the first "/" followed by at least one char
-        raise OutOfSubset("group(0) of %r" % pat)
-    raise OutOfSubset("capture group %d of %r" % (i, pat))
+    # any other group: an uninterpreted substring of the subject (callers escape it before use)
+    eng.assumptions_used.add("re match groups not covered by an exact encoding are uninterpreted substrings of the subject")
+    g = sfun("re_group_%s" % "".join("%02x" % ord(c) for c in pat)[:40], STR, INT, STR)(z, z3.IntVal(i))
+    eng.assume(z3.Contains(z, g))
+    return VStr(g)
 
 
 def re_sub(eng, world, args, kwargs, node):
     """re.sub(<char-class>+, repl, s): the result contains no character of the class when repl has none
     (assumed contract of re.sub for the literal patterns used in the repository)."""
     pat, repl, subj = [eng.force(a) for a in args[:3]]
+    if isinstance(pat, VStr) and is_conc(pat.z) and pat.z.isalnum() and isinstance(repl, VStr) and isinstance(subj, VStr):
+        eng.assumptions_used.add("re.sub(<alphanumeric literal>, repl, s): s with the occurrences of the literal replaced by repl (repl without backslashes)")
+        return VStr(sfun("re_sub_lit", STR, STR, STR, STR)(z3.StringVal(pat.z), S(repl.z), S(subj.z)))
     if not (isinstance(pat, VStr) and is_conc(pat.z) and isinstance(repl, VStr) and is_conc(repl.z)):
         raise OutOfSubset("re.sub with non-literal pattern/replacement")
+    if isinstance(pat, VStr) and is_conc(pat.z) and pat.z.isalnum():
+        # literal (alphanumeric) pattern: every occurrence replaced by repl
+        eng.assumptions_used.add("re.sub(<alphanumeric literal>, repl, s): s with the occurrences of the literal replaced by repl (repl without backslashes)")
+        return VStr(sfun("re_sub_lit", STR, STR, STR, STR)(z3.StringVal(pat.z), S(repl.z), S(subj.z)))
     classes = {r"[\r\n]+": "\r\n", r"\s+": " \t\n\r\x0b\x0c", r"[\s]+": " \t\n\r\x0b\x0c"}
     if pat.z not in classes:
         raise OutOfSubset("re.sub pattern %r" % pat.z)
